@@ -1,4 +1,4 @@
-/* GENERATED by tools/gen_contract_headers.py from vlib/b64spec.py - do not edit.
+/* GENERATED from vlib/b64spec.py (tools/gen_contract_headers.py, also refreshed by obligations/C15.py when stale) - do not edit.
  * Unbounded functional contract of sodium_bin2base64 (C15, C12), quantifier free with the ghost index g_k:
  *   character k < ceil(8 len / 6) is the RFC 4648 character of the k-th 6-bit group of the input (zero padded),
  *   then '=' up to the padded length (padding variants), then zero bytes up to b64_maxlen; the buffer is returned. */
